@@ -611,6 +611,62 @@ static string look_op(const string &ops) {
   return out;
 }
 
+// texts the loader must refuse, each AFTER it has already accepted definitions that clash with shipped ones
+static string bad_text(unsigned k) {
+  const string esta = "pid { name: \"DEVICE_LABEL\" value: 130 get_request { } "
+                      "get_response { field { type: UINT8 name: \"x\" } } }\n";
+  const string man = "manufacturer { manufacturer_id: 31344 manufacturer_name: \"m\" "
+                     "pid { name: \"SERIAL_NUMBER\" value: 32768 get_request { field { type: BOOL name: \"b\" } } }\n";
+  switch (k % 8) {
+    case 0: return esta + "pid { name: \"OTHER\" value: 130 get_request { } }\nversion: 1\n";           // value twice
+    case 1: return esta + "pid { name: \"DEVICE_LABEL\" value: 131 get_request { } }\nversion: 1\n";    // name twice
+    case 2: return esta + "pid { name: \"OUT_OF_RANGE\" value: 36864 get_request { } }\nversion: 1\n"; // ESTA PID in manufacturer range
+    case 3: return esta + man + "}\nversion: 1\npid { name: ";                                          // parse error at the end
+    case 4: return esta + man + "}\n" + man + "}\nversion: 1\n";                                        // manufacturer twice
+    case 5: return esta + "pid { name: \"NO_MAX\" value: 132 get_request { field { type: STRING name: \"s\" } } }\nversion: 1\n";
+    case 6: return esta + "pid { name: \"TWO_VAR\" value: 133 get_request { field { type: STRING name: \"a\" max_size: 4 } "
+                          "field { type: STRING name: \"b\" max_size: 4 } } }\nversion: 1\n";          // inconsistent frame
+    default: return esta + man + "pid { name: \"AGAIN\" value: 32768 get_request { } } }\nversion: 1\n"; // value twice in a manufacturer
+  }
+}
+
+// "seq s1,s2,...": ONE long-lived PidStoreLoader through a sequence of loads, refused ones included;
+// the outcome of every load is reported.  D<v>: the shipped directory (validate v); F<i>:<v>:...: shipped
+// file i alone; B<k>: a text that must be refused (odd k through a file, even k through a stream).
+static string seq_op(const string &spec) {
+  ola::rdm::PidStoreLoader loader;
+  vector<string> files = shipped_files();
+  vector<string> steps = vh::split(spec, ',');
+  string out = "sq=";
+  for (size_t i = 0; i < steps.size(); i++) {
+    const string &t = steps[i];
+    std::auto_ptr<const RootPidStore> st;
+    if (t[0] == 'D') {
+      st.reset(loader.LoadFromDirectory(PID_DATA_DIR, t.size() > 1 && t[1] == '1'));
+    } else if (t[0] == 'F') {
+      vector<string> f = vh::split(t.substr(1), ':');
+      unsigned idx = vh::num(f[0]);
+      if (idx < files.size())
+        st.reset(loader.LoadFromFile(string(PID_DATA_DIR) + "/" + files[idx], f.size() > 1 && f[1] == "1"));
+    } else if (t[0] == 'B') {
+      unsigned k = vh::num(t.substr(1));
+      string text = bad_text(k);
+      if (k % 2) {
+        string path = g_scratch + "/bad_" + vh::str(static_cast<long>(getpid())) + ".proto";
+        { std::ofstream f(path.c_str()); f << text; }
+        st.reset(loader.LoadFromFile(path, true));
+        unlink(path.c_str());
+      } else {
+        std::istringstream in(text);
+        st.reset(loader.LoadFromStream(&in, true));
+      }
+    }
+    string r = digest_line(st.get());
+    out += (i ? "|" : "") + (st.get() ? r.substr(3) : string("refused"));
+  }
+  return out;
+}
+
 // number of open file descriptors of this process
 static int open_fds() {
   int n = 0;
@@ -764,6 +820,7 @@ static string handle(const string &p) {
   if (a[0] == "look" && a.size() == 2) return look_op(a[1]);
   if (a[0] == "load" && a.size() == 2) return load_op(vh::num(a[1]));
   if (a[0] == "many" && a.size() == 2) return many_op(vh::num(a[1]));
+  if (a[0] == "seq" && a.size() == 2) return seq_op(a[1]);
   if (a[0] == "race" && a.size() == 3) return race_op(vh::num(a[1]), vh::num(a[2]));
   if (a[0] == "ldo" && a.size() == 4) return ldo_op(a[1] == "1", a[2], a[3]);
   if (a[0] == "ldf" && a.size() >= 4) return ldf_op(a[1] == "1", a[2], a[3]);
